@@ -1581,6 +1581,11 @@ impl Vm {
     fn reset_stack(&mut self) {
         if let Some(fiber) = self.fiber.as_ref() {
             let mut borrowed_fiber = fiber.borrow_mut();
+            // Closures made by the frames that are being discarded may have escaped (into a
+            // global, say) and may be called by a later run: give them their variables.
+            if borrowed_fiber.stack.len() > 0 {
+                borrowed_fiber.close_upvalues(0);
+            }
             borrowed_fiber.stack.clear();
             borrowed_fiber.frames.clear();
         }
